@@ -139,9 +139,41 @@ def nonmutating(rng, curve, other):
     return ops
 
 
+def run_fit(ctx, case, c):
+    """`receiver.fit_curve(source)` / `receiver.fit(source)` as a mutating operation: whatever it does — succeed, or raise because the
+    weights projected onto the receiver's space change sign — the receiver stays consistent, a raising call leaves it exactly as it
+    was, and the source is never touched"""
+    rec = ctx["rec"]
+    R = (c["R"]["U"], [tuple(p) for p in c["R"]["P"]], c["R"]["W"])
+    S = (c["S"]["U"], [tuple(p) for p in c["S"]["P"]], c["S"]["W"])
+    rec.case(case, nontrivial=True)
+    recv, src = make_curve(*R), make_curve(*S)
+    br, bs = curve_state(recv), curve_state(src)
+    r = impl(lambda: (recv.fit_curve(src) if c["how"] == "fit_curve" else recv.fit(src)))
+    rec.count("fit", c["how"] + "/" + errkind(r))
+    l3(rec, "fit-atomicity")
+    if curve_state(src) != bs:
+        rec.violation("fitting modified the source curve", case)
+        return
+    ar = curve_state(recv)
+    if r[0] != "ok":
+        if ar != br:
+            rec.violation("%s raised (%s) and left the receiver modified" % (c["how"], r[1]), case, before=ser(br), after=ser(ar))
+        return
+    n = kv_info(list(ar[0]))[1]
+    if ar[1] is None or len(ar[1]) != n or (ar[2] is not None and len(ar[2]) != n):
+        rec.violation("receiver inconsistent after %s" % c["how"], case, after=ser(ar))
+        return
+    ev = impl(lambda: [recv(u) for u in params_for(ctx["rng"], list(ar[0]), extra=1)])
+    if ev[0] != "ok":
+        rec.violation("receiver cannot be evaluated after %s" % c["how"], case, observed=ev[1])
+
+
 def run_case(ctx, case):
     rec, drv = ctx["rec"], ctx["drv"]
     c = de(case)
+    if c.get("kind") == "fit":
+        return run_fit(ctx, case, c)
     U, P, W = c["U"], (None if c["P"] is None else [tuple(p) for p in c["P"]]), c["W"]
     ops = [tuple(o) for o in c["ops"]]
     raising = 0
@@ -328,6 +360,25 @@ def gen_ops(rng, drv, st, length):
 def run(ctx):
     rng = ctx["rng"]
     maxlen = budget(ctx, 8, 20)
+    # fitting a rational source with very unequal weights onto a coarser receiver: the projected weight spline may change sign and the
+    # receiver's weight setter then refuses it — after the new control points have been computed
+    for i in range(budget(ctx, 8, 60)):
+        ps = rng.choice([1, 1, 2])
+        nsp = rng.randint(4, 6)
+        US = [F(0)] * (ps + 1) + [F(k, nsp) for k in range(1, nsp)] + [F(1)] * (ps + 1)
+        ns = len(US) - ps - 1
+        small = F(1, rng.choice([50, 100, 1000]))
+        WS = [small] * ns
+        WS[rng.choice([0, -1])] = F(1)
+        if rng.random() < 0.3:
+            WS = [F(rng.randint(1, 4)) for _ in range(ns)]          # control: a fit that succeeds
+        dim = rng.choice([1, 2])
+        pr = rng.choice([1, 2])
+        UR = [F(0)] * (pr + 1) + ([F(1, 2)] if rng.random() < 0.3 else []) + [F(1)] * (pr + 1)
+        nr = len(UR) - pr - 1
+        R = dict(U=UR, P=rand_points(rng, nr, dim, ints=True), W=(None if rng.random() < 0.5 else [F(rng.randint(1, 3)) for _ in range(nr)]))
+        S = dict(U=US, P=rand_points(rng, ns, dim, ints=True), W=WS)
+        run_case(ctx, ser(dict(kind="fit", R=R, S=S, how=rng.choice(["fit_curve", "fit_curve", "fit"]))))
     # curves that carry weights but no control points (and neither): the weights must follow the knot vector
     for i in range(budget(ctx, 8, 60)):
         U = rand_kv(rng, pmax=2, nintmax=2, maxmult=1)
